@@ -249,6 +249,7 @@ type Op struct {
 	CliExists bool   // the image file existed before it
 	IO    bool // C09: the model is asked for the operation's I/O plan (`io` lines)
 	St    *StOp // C14: one raw call on a bare backing store (no image)
+	N     int64 // ftrunc: the image file is cut to N bytes by someone else (a partial copy or download)
 	// filled in by the executor
 	Now int64
 	Rnd []byte
@@ -309,6 +310,8 @@ func (o *Op) lines0() []string {
 		return []string{"reload"}
 	case "st":
 		return []string{o.St.line()}
+	case "ftrunc":
+		return []string{fmt.Sprintf("ftrunc n=%d", o.N)}
 	case "obs":
 		l := "obs"
 		if o.Reload {
@@ -326,7 +329,7 @@ func (o *Op) lines0() []string {
 		return o.Img.lines(o.Path)
 	case "keys":
 		return getUniverse().keyLines()
-	case "facts":
+	case "facts", "forge":
 		return o.Raw
 	case "verify":
 		return []string{"verify " + o.V.String()}
